@@ -638,6 +638,9 @@ class Interp:
         self.unsupported(node, "comparison")
 
     def identical(self, a, b):
+        for x, y in ((a, b), (b, a)):
+            if isinstance(x, bool) and isinstance(y, Sym) and y.pytype is bool:
+                return self.truth(y) is x
         if a is None or b is None or isinstance(a, bool) or isinstance(b, bool):
             return a is b
         if isinstance(a, str) and isinstance(b, str):
